@@ -111,7 +111,7 @@ def confirm(outdir, i, prop, name):
     return 0 if ok else 1
 
 
-def detect(name, props, tier, keep=False):
+def detect(name, props, tier, keep=False, at="HEAD"):
     d = os.path.join(SEEDED, name)
     meta = json.load(open(os.path.join(d, "meta.json")))
     props = props or [meta["breaks_property"]]
@@ -126,9 +126,9 @@ def detect(name, props, tier, keep=False):
         r = sh(["git", "-C", wt, "apply", os.path.join(d, "patch.diff")])
         assert r.returncode == 0, r.stdout
         os.makedirs(snap)
-        r = sh("git -C %s archive HEAD | tar -x -C %s" % (VERIF, snap))      # committed state only: edits in progress do not interfere
+        r = sh("git -C %s archive %s | tar -x -C %s" % (VERIF, at, snap))      # committed state only: edits in progress do not interfere
         assert r.returncode == 0, r.stdout
-        vhead = sh(["git", "-C", VERIF, "rev-parse", "--short", "HEAD"]).stdout.strip()
+        vhead = sh(["git", "-C", VERIF, "rev-parse", "--short", at]).stdout.strip()
         dirty = False
         for prop in props:
             env = dict(os.environ, XTL_REPO=wt, VERIF_BUILD=snap + "/build")
@@ -142,7 +142,10 @@ def detect(name, props, tier, keep=False):
             if r.returncode == 2:
                 rec["machinery_failure"] = (r.stdout[-600:] + r.stderr[-1500:])
             # keep the replay files of the first violation as an example
-            meta["detection"] = [x for x in meta.get("detection", []) if x.get("check") != rec["check"]] + [rec]
+            meta["detection"] = [x for x in meta.get("detection", []) if not (x.get("check") == rec["check"] and x.get("verif_commit") == rec["verif_commit"])] + [rec]
+            order = sh(["git", "-C", VERIF, "rev-list", "--reverse", "HEAD"]).stdout.split()
+            pos = {c[:7]: i for i, c in enumerate(order)}
+            meta["detection"].sort(key=lambda x: pos.get(x.get("verif_commit", "")[:7], 10 ** 6))
             out_all.append(rec)
             print(name, prop, "exit", r.returncode, "DETECTED" if rec["detected"] else "missed", "%.0fs" % wall, flush=True)
             for l in rec["output"][:4]:
@@ -163,9 +166,17 @@ def table():
         m = json.load(open(mp))
         det = m.get("detection", [])
         last = {}
-        for x in det:
+        missed_before = {}
+        for x in det:      # sorted by /verif commit order
             last[x["check"]] = x
-        cell = "; ".join("%s: %s" % (c.replace("./check ", ""), "caught" if x["detected"] else ("machinery failure" if x["exit"] == 2 else "missed")) for c, x in sorted(last.items()))
+            if not x["detected"]:
+                missed_before.setdefault(x["check"], x.get("verif_commit", "?"))
+        def word(c, x):
+            w = "caught" if x["detected"] else ("machinery failure" if x["exit"] == 2 else "missed")
+            if x["detected"] and c in missed_before:
+                w += " at %s after strengthening (missed at %s)" % (x.get("verif_commit", "?"), missed_before[c])
+            return w
+        cell = "; ".join("%s: %s" % (c.replace("./check ", ""), word(c, x)) for c, x in sorted(last.items()))
         sig = ""
         for x in last.values():
             for l in x.get("output", []):
@@ -189,13 +200,14 @@ def main():
     if a[0] == "confirm":
         return confirm(a[1], a[2], a[3], a[4])
     if a[0] == "detect":
-        tier = "quick"; keep = False; rest = []
+        tier = "quick"; keep = False; rest = []; at = "HEAD"
         i = 1
         while i < len(a):
             if a[i] == "--tier": tier = a[i + 1]; i += 2
             elif a[i] == "--keep": keep = True; i += 1
+            elif a[i] == "--at": at = a[i + 1]; i += 2
             else: rest.append(a[i]); i += 1
-        return detect(rest[0], rest[1:], tier, keep)
+        return detect(rest[0], rest[1:], tier, keep, at)
     if a[0] == "table":
         return table()
     print(__doc__); return 2
